@@ -290,6 +290,18 @@ impl World {
                 }
             }
         }
+        if self.verbose {
+            let node = &self.nodes[&n];
+            for p in &c.post.prs {
+                let was = c.pre.pr(p.id).map(|q| q.state == ProgressState::Snapshot).unwrap_or(false);
+                if p.state == ProgressState::Snapshot && !was {
+                    eprintln!("   [dbg] step {} node {n}: peer {} enters Snapshot state in {} (emitted {} msgs, handed ghost {:?}, same_leader {same_leader})", self.step_no, p.id, kind_name(c.kind), c.emitted.len(), node.snap_handed.get(&p.id));
+                }
+                if p.state != ProgressState::Snapshot && was {
+                    eprintln!("   [dbg] step {} node {n}: peer {} leaves Snapshot state in {}", self.step_no, p.id, kind_name(c.kind));
+                }
+            }
+        }
         // ---- ghost: probe outstanding per peer. Set when an entry-carrying append goes to a peer that is (still) in
         // Probe state; cleared by anything that may legitimately let the leader probe again: any call that
         // originates from that peer or is about it, EXCEPT an append acknowledgement that carries no news
@@ -415,6 +427,22 @@ impl World {
         Ok(())
     }
 
+    /// Messages produced inside `advance()` leave through the LightReady, not through `emitted`: feed the
+    /// per-peer ghosts from them as well.
+    pub fn note_light_messages(&mut self, n: NodeId, msgs: &[Message]) {
+        let probing: Vec<u64> = self.nodes[&n].obs.prs.iter().filter(|p| p.state == ProgressState::Probe).map(|p| p.id).collect();
+        let node = self.nodes.get_mut(&n).unwrap();
+        for m in msgs {
+            if m.get_msg_type() == MessageType::MsgSnapshot {
+                node.snap_outstanding.insert(m.to, m.get_snapshot().get_metadata().index);
+                node.snap_handed.insert(m.to, m.get_snapshot().get_metadata().index);
+            }
+            if m.get_msg_type() == MessageType::MsgAppend && !m.entries.is_empty() && probing.contains(&m.to) {
+                node.probe_outstanding.insert(m.to);
+            }
+        }
+    }
+
     fn account_uncommitted(&mut self, c: &CallCtx) {
         let n = c.n;
         let node = self.nodes.get_mut(&n).unwrap();
@@ -514,6 +542,19 @@ impl World {
             if c.post.last_index != c.pre.last_index || (c.err.is_none() && !matches!(c.kind, CallKind::Step(_))) {
                 let d = format!("leader {n} accepted a proposal while transferring leadership to {:?} (log {} -> {})", c.pre.transferee, c.pre.last_index, c.post.last_index);
                 return Err(self.violation("C17", "C17.no_proposals_while_transferring", n, d, "proposal_during_transfer".into()));
+            }
+        }
+        // a pending transfer ends only by stepping down, by the timeout (a tick), by a membership change, or by
+        // another transfer request; never as a side effect of anything else (while it is pending, proposals are refused)
+        if c.pre.role == StateRole::Leader && c.post.role == StateRole::Leader && c.pre.term == c.post.term {
+            if let Some(t) = c.pre.transferee {
+                *self.stats.entry("chk.C17.pending_until_resolved").or_insert(0) += 1;
+                let legit = matches!(c.kind, CallKind::Tick | CallKind::ApplyConf { .. } | CallKind::Transfer { .. })
+                    || matches!(c.kind, CallKind::Step(m) if m.get_msg_type() == MessageType::MsgTransferLeader);
+                if c.post.transferee != Some(t) && !legit {
+                    let d = format!("leader {n} dropped its pending transfer to {t} in {} (now {:?}) without stepping down, a timeout, a membership change or a new request", kind_name(c.kind), c.post.transferee);
+                    return Err(self.violation("C17", "C17.no_proposals_while_transferring", n, d, "transfer_forgotten".into()));
+                }
             }
         }
         // abort_after_timeout
